@@ -5,7 +5,7 @@ from metapype.eml import export
 from metapype.model import metapype_io
 from metapype.model.node import Node
 from harness import xmlscan
-from harness.hlib import fresh, nodes, part, bound
+from harness.hlib import fresh, nodes, part, bound, affix
 
 FLD = part(0)            # which field is symbolic (see _tree)
 MAXLEN = bound(2)
@@ -268,6 +268,7 @@ def h_general(val: Optional[str]) -> str:
     pre: not (FLD in (4, 11) and val is not None and len(val) == 0)
     post: _ == ""
     """
+    val = affix(val)
     # 1. the whole document for a concrete sentinel value was scanned and compared in full at import time
     if PHASE1_GENERAL[0]:
         return PHASE1_GENERAL[0]
@@ -395,9 +396,10 @@ def h_eml(val: Optional[str], root_is_eml: bool) -> str:
     """
     pre: val is None or len(val) <= MAXLEN
     pre: val is None or xml_chars(val, FLD in (21, 23))
-    pre: val is None or MAXLEN <= 3 or not _special(val)
+    pre: val is None or (MAXLEN <= 3 and affix("") == "") or not _special(affix(val))
     post: _ == ""
     """
+    val = affix(val)
     p1 = PHASE1_EML[1 if root_is_eml else 0]
     if p1[0]:
         return p1[0]
